@@ -481,7 +481,7 @@ def run_scaling(shard, ctx, sm, rng):
             # responses built to be expensive for hashing: entries that are all different but whose natural keys (the integer value
             # of an identifier; the tuple of a descriptor's fields) have one and the same hash value
             for label, mk, (n_small, n_big) in [(lb, fn, sz) for lb, fn in ADVERSARIAL.get(name, ())
-                                                for sz in (((8192, 32768), (32768, 131072)) if name in ("readelementstatus", "reporttargetportgroups") else ((2048, 8192),))]:
+                                                for sz in (((8192, 32768), (8192, 131072)) if name in ("readelementstatus", "reporttargetportgroups") else ((2048, 8192),))]:
                 small_b, big_b = mk(n_small), mk(n_big)
                 over, ratios = 0, []
                 for _round in range(3):
@@ -492,6 +492,7 @@ def run_scaling(shard, ctx, sm, rng):
                     else:
                         break
                 ctx.count("hash_adversarial_responses_timed")
+                ctx.maximum("cpu_time_growth_over_proportional.crafted.%s" % name, round(ratios[0] / (len(big_b) / len(small_b)), 2), {"input": label, "bytes": [len(small_b), len(big_b)], "cpu_ratio": ratios})
                 ctx.case(("cpu-adversarial", name, label), True)
                 if over == 3:
                     ctx.fail("C11:%s.superlinear_work.cpu_time" % name, "%s on %s: %d bytes cost %s times the processor time of %d bytes, in three measurements" % (name, label, len(big_b), ratios, len(small_b)),
